@@ -37,6 +37,12 @@ class C07(Check):
             qspec = ("list", q2 if (scope == "B1" and (cls != "strong" or not quick)) else qs2)
             out.append(opsem.make_task(scopes.SIG2, conds, True, self.cfgs, qspec, via=via, wsig=WSIG2, cls=cls, scope=scope,
                                        keys=alt_keys(n, len(conds)) if via == "api" else None))
+        reps2, _st = scopes.structural_scope(scopes.L3, scopes.SIG3, 2, ALLW, seed, 1, minsize=2)
+        for pair, _cls in reps2:
+            for conds in ([pair[0], pair[0], pair[1]], [pair[0], pair[1], pair[1]]):
+                cls = ref.classify([forms.sem(x, scopes.SIG3) for x in conds], forms.allmask(scopes.SIG3))
+                if cls in ALLW:
+                    out.append(opsem.make_task(scopes.SIG3, conds, True, self.cfgs, ("type", "T21", 0, True), via="api", cls=cls, scope="B3dup"))
         plan = [("L3", 4, WEAK, ("T21", 0), 1), ("L3", 3, ("strong",), (1, 1), 1)] if quick else \
                [("L3", 4, WEAK, (2, 2), 3), ("L3T", 4, WEAK, ("T21", 0), 1), ("L3PLUS", 3, WEAK, ("T21", 0), 1),
                 ("L3", 4, ("strong",), ("T21", 0), 1)]
